@@ -201,6 +201,15 @@ def check_table_pair(ck, repo, cls_name, save_name, load_name, series_fields, sc
     for fld in series_fields + scalar_fields:
         ck.ob("W2", ld.qualname, "persisted field %s is restored" % fld, where_r, bool(fields.get(fld)),
               "the loader does not rebuild this field from the frame")
+    # the presence tests of once-per-table values look at the first row too
+    rows = set()
+    for _, o in results:
+        for c, d in o.trace:
+            for mm in re.finditer(r"csv\.(\w+)\[(\d+)\]", full_text(c)):
+                rows.add((mm.group(1), mm.group(2)))
+    for col, row in sorted(rows):
+        ck.ob("W5", ld.qualname, "the presence test of %s looks at the first row, the only one every table has" % col, where_r, row == "0",
+              "a table with a single row has no row %s" % row, found="row %s" % row)
     # with nothing missing in the file, nothing may be missing in the object (a presence test of the wrong polarity drops a field)
     complete = [o for _, o in results if not any(asserts_missing(c, d) for c, d in o.trace)]
     ck.ob("W2", ld.qualname, "the loader has a path for a file in which no value is missing", where_r, bool(complete))
